@@ -22,6 +22,12 @@ func main() {
 	switch os.Args[1] {
 	case "selftest":
 		os.Exit(e3.SelfTest())
+	case "e3":
+		if len(os.Args) < 4 {
+			fmt.Println("usage: e3 <property> <tier>")
+			os.Exit(2)
+		}
+		os.Exit(e3.Main(os.Args[2], os.Args[3]))
 	default:
 		fmt.Printf("INFRA unknown sub-command %q\n", os.Args[1])
 		os.Exit(2)
